@@ -534,7 +534,7 @@ impl Prop for C20 {
         "C20"
     }
     fn rule_text(&self) -> String {
-        "case = generated zippy dictionary (2-7 lines over 4-7 chord keys incl. space: overlapping chords, chords extending other chords, single-key chords, follow-up chains to depth 3 with 1-3-key follow-up chords, output-less chain steps, outputs with upper/lower case, digits, spaces, shared prefixes, S-/AG-/S-AG- mapped characters), deadline and idle-reactivate time in {15,40,500}, all smart-space modes; history = 1-6 segments of: an entry's chain pressed in a sampled permutation with gaps below / at / above the deadline (optionally with lsft / rsft / ralt held, optionally continuing into a superset chord), partial chords, neutral typing, punctuation, idle waits below / at / above the idle-reactivate time. Oracle: the OS output replayed into a text buffer equals the text of a documentation-level reference model (an activation replaces what the gesture / chain put on screen by the expansion + smart space; everything else passes through); no backspace on an empty buffer; at the end nothing is down and while shift / altgr are held they are down at the OS after every activation. Windows where the outcome depends on the exact tick (deadline, idle time) stop the judgement. non-trivial = at least one activation in the model; distinct = config x dictionary x history hash.".into()
+        "case = generated zippy dictionary (2-7 lines over 4-7 chord keys incl. space: overlapping chords, chords extending other chords, single-key chords, follow-up chains to depth 3 with 1-3-key follow-up chords, output-less chain steps, outputs with upper/lower case, digits, spaces, shared prefixes, S-/AG-/S-AG- mapped characters), deadline and idle-reactivate time in {15,40,500}, all smart-space modes; history = 1-6 segments of: an entry's chain pressed in a sampled permutation with gaps below / at / above the deadline (optionally with lsft / rsft / ralt held - around one chord or across several segments -, optionally continuing into a superset chord), partial chords, neutral typing, punctuation, idle waits below / at / above the idle-reactivate time. Oracle: the OS output replayed into a text buffer equals the text of a documentation-level reference model (an activation replaces what the gesture / chain put on screen by the expansion + smart space; everything else passes through); no backspace on an empty buffer; at the end nothing is down and while shift / altgr are held they are down at the OS after every activation. Windows where the outcome depends on the exact tick (deadline, idle time) stop the judgement. non-trivial = at least one activation in the model; distinct = config x dictionary x history hash.".into()
     }
     fn runs(&self, tier: Tier) -> u64 {
         match tier {
@@ -714,12 +714,31 @@ impl Prop for C20 {
                 _ => r.range(1, (d / 6).max(1)),
             }
         };
+        // a modifier may stay held across several segments (neutral typing, a partial chord, an
+        // expired deadline, an idle wait, then a chord): what zippychord believes about held
+        // modifiers must survive its resets
+        let mut long_mod: Option<(&str, u64)> = None;
         for _ in 0..nseg {
+            if long_mod.is_none() && r.chance(120) {
+                let m = *r.pick(&["lsft", "rsft", "ralt"]);
+                ops.push(Op::Press(oscode_of(m)));
+                ops.push(Op::Gap(r.range(1, 3) as u32));
+                long_mod = Some((m, r.range(2, 4)));
+            } else if let Some((m, left)) = long_mod {
+                if left == 0 {
+                    ops.push(Op::Gap(1));
+                    ops.push(Op::Release(oscode_of(m)));
+                    ops.push(Op::Gap(r.range(1, 6) as u32));
+                    long_mod = None;
+                } else {
+                    long_mod = Some((m, left - 1));
+                }
+            }
             let roll = r.below(100);
             if roll < 60 {
                 // an entry's chain
                 let (chain, _) = r.pick(&lines).clone();
-                let modk = match r.pick_w(&[70, 12, 8, 10]) {
+                let modk = match if long_mod.is_some() { 0 } else { r.pick_w(&[70, 12, 8, 10]) } {
                     0 => None,
                     1 => Some("lsft"),
                     2 => Some("rsft"),
@@ -820,6 +839,10 @@ impl Prop for C20 {
                 let g = *r.pick(&[idle + 6, idle + 6, idle + 30, idle.saturating_sub(6).max(1), idle, idle + 1]);
                 ops.push(Op::Gap(g as u32));
             }
+        }
+        if let Some((m, _)) = long_mod {
+            ops.push(Op::Gap(1));
+            ops.push(Op::Release(oscode_of(m)));
         }
         ops.push(Op::Gap(30));
         case.ops = ops;
